@@ -1,68 +1,51 @@
 import LokiModel.C16.Lemmas
+import LokiModel.Generated.C16Tables
 /-!
 # C16 — analysis attach/detach leaves the IR unchanged (property theorems)
 
+State after the `fix:` commits for the classes `attach-overwrites-slot`, `stray-pragma-post`, `dataflow-scoped-node-stale` and
+`region-match-indexerror` (the old behaviour is kept as regression statements in `LokiModel/Findings/C16.lean`).
 `attachList`/`detachList` model `PragmaAttacher.visit_tuple` / `PragmaDetacher.visit_tuple` (any nesting), `regAtt`/`unregList`
 model `PragmaRegionAttacher` / `PragmaRegionDetacher`, `dfAttList`/`dfDetList` the dataflow attacher/detacher, `runOp`
-the context managers.  The full statements are false for the unchanged code (`*_full_false`); each `_partial` theorem holds
-outside a decidable class (`KnownOverwrite`, `KnownStrayPost`, `KnownRegionIndex`, `dfStaleList`).
+the context managers.  Pragmas, dataflow and the context managers hold at full strength; the region statement is false for the code
+(`C16_regions_full_false`) and holds outside the decidable class `KnownRegionIndex` (open finding `region-index-by-value`).
 -/
 namespace LokiModel.C16
 
 /-! ## pragmas -/
 
-/-- full statement: on every body (slots possibly already attached), `attach` followed by `detach` gives what `detach`
-alone gives -/
-def C16_full : Prop :=
-  ∀ (T : List String) (post : Bool) (xs : List Item),
-    detachList T post (attachList T post xs) = detachList T post xs
-
 def wP (n : Nat) : Pragma := ⟨n, "loki", "x", n, false⟩
 
-/-- witness: a new pragma in front of a loop whose `pragma` slot is already attached (state after
-attach → insert): the second `attach` overwrites the slot and the first pragma is lost -/
-theorem C16_full_false : ¬ C16_full := by
-  intro h
-  have := congrArg List.length
-    (h ["Loop"] true [.pragma (wP 4), .node 2 "Loop" true false [wP 1] [] []])
-  simp [attachList, attachGo, attachItem, detachList, detachItem, Item.qual, Item.setPre, wP] at this
-
-example : KnownOverwrite ["Loop"] true [.pragma (wP 4), .node 2 "Loop" true false [wP 1] [] []] = true := by
-  simp [KnownOverwrite, owGo, owItem, Item.qual, Item.preNE, lastOf, wP]
-
-/-- **C16 pragmas, all bodies outside the two classes**: if no `_update` of `visit_tuple` replaces a non-empty slot and
-none creates a `pragma_post` attribute on a node that lacks it, detaching after attaching gives exactly what detaching
-the input gives (any nesting, any node types, with or without `pragma_post` handling). -/
-theorem C16_detach_attach_partial (T : List String) (post : Bool) (xs : List Item)
-    (h1 : KnownOverwrite T post xs = false) (h2 : KnownStrayPost T post xs = false) :
+/-- **C16 pragmas, full statement** (holds since the `fix:` commits for `attach-overwrites-slot` and `stray-pragma-post`):
+on every body — any nesting, any node types, with or without `pragma_post` handling, slots possibly already attached
+(attach; edit; attach; detach) — detaching after attaching gives exactly what detaching the input gives. -/
+theorem C16_full (T : List String) (post : Bool) (xs : List Item) :
     detachList T post (attachList T post xs) = detachList T post xs :=
-  detach_attachList T post xs h1 h2
+  detach_attachList T post xs
 
 /-- **C16 pragmas, frontend state**: for every body with all slots empty (what the frontends produce), pragmas in any
-position (leading, trailing, between two qualifying nodes, at tuple end), `detach (attach xs) = xs`, provided no
-trailing pragmas follow a qualifying node without `pragma_post` attribute at a tuple end (`KnownStrayPost`). -/
-theorem C16_detach_attach (T : List String) (post : Bool) (xs : List Item)
-    (hc : cleanList xs = true) (h2 : KnownStrayPost T post xs = false) :
+position (leading, trailing, between two qualifying nodes, at tuple end), `detach (attach xs) = xs`. -/
+theorem C16_detach_attach (T : List String) (post : Bool) (xs : List Item) (hc : cleanList xs = true) :
     detachList T post (attachList T post xs) = xs := by
-  rw [detach_attachList T post xs (knownOverwrite_clean T post xs hc) h2, detachList_clean T post xs hc]
+  rw [detach_attachList T post xs, detachList_clean T post xs hc]
 
-/-- the `KnownStrayPost` hypothesis cannot be dropped: a call followed by a pragma at the end of a tuple comes back
-with a `pragma_post` instance attribute it did not have -/
-theorem C16_detach_attach_clean_full_false :
-    ¬ ∀ (T : List String) (post : Bool) (xs : List Item), cleanList xs = true →
-      detachList T post (attachList T post xs) = xs := by
-  intro h
-  have := h ["CallStatement"] true [.node 1 "CallStatement" false false [] [] [], .pragma (wP 2)] (by simp [cleanList, cleanItem])
-  simp [attachList, attachGo, attachItem, detachList, detachItem, Item.qual, Item.setPost] at this
+/-- the former witness of `attach-overwrites-slot` (new pragma in front of a loop whose slot is attached): both pragmas
+come back, the new one first -/
+example : detachList ["Loop"] true (attachList ["Loop"] true [.pragma (wP 4), .node 2 "Loop" true false [wP 1] [] []]) =
+    [.pragma (wP 4), .pragma (wP 1), .node 2 "Loop" true false [] [] []] := by
+  simp [attachList, attachGo, attachItem, detachList, detachItem, Item.qual, Item.prependPre, wP]
 
-/-- non-vacuity: a body with leading, trailing and in-between pragmas and a nested loop satisfies the hypotheses -/
+/-- the former witness of `stray-pragma-post`: a call without `pragma_post` attribute keeps its trailing pragma in the tuple -/
+example : attachList ["CallStatement"] true [.node 1 "CallStatement" false false [] [] [], .pragma (wP 2)] =
+    [.node 1 "CallStatement" false false [] [] [], .pragma (wP 2)] := by
+  simp [attachList, attachGo, attachItem, Item.qual, lastOf]
+
+/-- non-vacuity of `C16_detach_attach` -/
 example : cleanList [.pragma (wP 1), .node 2 "Loop" true false [] [] [.pragma (wP 3), .node 4 "Loop" true false [] [] []],
-    .pragma (wP 5), .node 6 "Loop" true false [] [] [], .pragma (wP 7)] = true ∧
-    KnownStrayPost ["Loop"] true [.pragma (wP 1), .node 2 "Loop" true false [] [] [.pragma (wP 3), .node 4 "Loop" true false [] [] []],
-    .pragma (wP 5), .node 6 "Loop" true false [] [] [], .pragma (wP 7)] = false := by
-  simp [cleanList, cleanItem, KnownStrayPost, strayGo, strayItem, lastOf, Last.none]
+    .pragma (wP 5), .node 6 "Loop" true false [] [] [], .pragma (wP 7)] = true := by
+  simp [cleanList, cleanItem]
 
-/-- identities: `attach` never adds, drops or reorders a non-pragma node (unconditionally, also in the failing classes) -/
+/-- identities: `attach` never adds, drops or reorders a non-pragma node (unconditionally) -/
 theorem C16_nodeIds_attach (T : List String) (post : Bool) (xs : List Item) :
     nodeIdsList (attachList T post xs) = nodeIdsList xs := nodeIds_attachList T post xs
 
@@ -129,6 +112,49 @@ example : dfStaleList ⟨["TypeDef"], ["Interface"], ["Associate", "TypeDef"]⟩
     [.node 1 "Loop" true false [] [] [.pragma (wP 2), .node 3 "Assignment" false false [] [] []]] = false := by
   simp [dfStaleList, dfStaleItem]
 
+/-- a detacher that skips no class (the state since the `fix:` commit for `dataflow-scoped-node-stale`) leaves nothing stale -/
+theorem dfStale_noClear_nil (ns nd : List String) : ∀ (xs : List Item), dfStaleList ⟨ns, nd, []⟩ xs = false := by
+  intro xs
+  have key : ∀ n : Nat, (∀ i, sizeItem i ≤ n → dfStaleItem ⟨ns, nd, []⟩ i = false) ∧
+      (∀ ys, sizeList ys ≤ n → dfStaleList ⟨ns, nd, []⟩ ys = false) := by
+    intro n
+    induction n with
+    | zero =>
+      refine ⟨fun i h => ?_, fun ys h => ?_⟩
+      · cases i <;> simp [sizeItem] at h
+      · cases ys with
+        | nil => simp [dfStaleList]
+        | cons y ys => cases y <;> simp [sizeList, sizeItem] at h <;> omega
+    | succ n ih =>
+      have hitem : ∀ i, sizeItem i ≤ n + 1 → dfStaleItem ⟨ns, nd, []⟩ i = false := by
+        intro i h
+        cases i with
+        | pragma p => simp [dfStaleItem]
+        | node id k hp df pre po body =>
+          simp only [sizeItem] at h
+          have := ih.2 body (by omega)
+          simp [dfStaleItem, this]
+        | region df s e body =>
+          simp only [sizeItem] at h
+          simpa [dfStaleItem] using ih.2 body (by omega)
+      refine ⟨hitem, fun ys h => ?_⟩
+      induction ys with
+      | nil => simp [dfStaleList]
+      | cons y ys ihy =>
+        simp only [sizeList] at h
+        have hy : 1 ≤ sizeItem y := by cases y <;> simp [sizeItem] <;> omega
+        simp [dfStaleList, hitem y (by omega), ihy (by omega)]
+  exact (key (sizeList xs)).2 xs (Nat.le_refl _)
+
+/-- **C16 dataflow, full statement for the current code**: with the handler table generated from the real classes
+(`Generated.dfNoClear = []`), detaching clears exactly what attaching set, on every tree. -/
+theorem C16_dataflow_roundtrip (xs : List Item) (hf : dfFreeList xs = true) :
+    dfDetList ⟨Generated.dfNoSet, Generated.dfNoDescend, Generated.dfNoClear⟩
+      (dfAttList ⟨Generated.dfNoSet, Generated.dfNoDescend, Generated.dfNoClear⟩ xs) = xs := by
+  have e : Generated.dfNoClear = [] := rfl
+  rw [e]
+  exact dfDet_dfAtt_list _ xs (dfStale_noClear_nil _ _ xs) hf
+
 /-! ## context managers -/
 
 /-- once an exception propagates nothing else of the history runs -/
@@ -138,18 +164,18 @@ theorem runOps_exc (tab : DfTab) (ops : List Op) (rs : List Item) (e : String) :
   | nil => simp [runOps]
   | cons op ops ih => simp [runOps, runOp, ih]
 
-/-- a root in the state the frontend produces, outside the stray class -/
-def RootOK (T : List String) (post : Bool) (r : Item) : Prop :=
-  ∃ id k hp df body, r = .node id k hp df [] [] body ∧ cleanList body = true ∧ KnownStrayPost T post body = false
+/-- a root in the state the frontend produces -/
+def RootOK (r : Item) : Prop :=
+  ∃ id k hp df body, r = .node id k hp df [] [] body ∧ cleanList body = true
 
-theorem detachRoot_attachItem (T : List String) (post : Bool) (r : Item) (h : RootOK T post r) :
+theorem detachRoot_attachItem (T : List String) (post : Bool) (r : Item) (h : RootOK r) :
     detachRoot T post (attachItem T post r) = r := by
-  obtain ⟨id, k, hp, df, body, rfl, hc, hs⟩ := h
-  have := C16_detach_attach T post body hc hs
+  obtain ⟨id, k, hp, df, body, rfl, hc⟩ := h
+  have := C16_detach_attach T post body hc
   simp only [attachList] at this
   simp [attachItem, detachRoot, this]
 
-theorem detachRoots_attachRoots (T : List String) (post : Bool) (rs : List Item) (h : ∀ r ∈ rs, RootOK T post r) :
+theorem detachRoots_attachRoots (T : List String) (post : Bool) (rs : List Item) (h : ∀ r ∈ rs, RootOK r) :
     detachRoots T post (attachRoots T post rs) = rs := by
   induction rs with
   | nil => simp [attachRoots, detachRoots]
@@ -163,7 +189,7 @@ theorem detachRoots_attachRoots (T : List String) (post : Bool) (rs : List Item)
 attached IR in place (read-only bodies, bodies that raise at any point — the history stops there —, properly bracketed
 inner contexts), the exit part runs, the unit is back in its initial state and the exception (if any) propagates. -/
 theorem C16_bracket_restores (tab : DfTab) (T : List String) (post : Bool) (ops : List Op) (rs : List Item)
-    (hr : ∀ r ∈ rs, RootOK T post r)
+    (hr : ∀ r ∈ rs, RootOK r)
     (hb : (runOps tab ops ⟨attachRoots T post rs, none⟩).roots = attachRoots T post rs) :
     runOp tab (.ctxPragmas T post ops) ⟨rs, none⟩ =
       ⟨rs, (runOps tab ops ⟨attachRoots T post rs, none⟩).exc⟩ := by
@@ -171,7 +197,7 @@ theorem C16_bracket_restores (tab : DfTab) (T : List String) (post : Bool) (ops 
 
 /-- the exception path is not vacuous: a body that raises first satisfies the hypothesis, and the exception leaves the context -/
 theorem C16_bracket_raise (tab : DfTab) (T : List String) (post : Bool) (rest : List Op) (rs : List Item)
-    (hr : ∀ r ∈ rs, RootOK T post r) :
+    (hr : ∀ r ∈ rs, RootOK r) :
     runOp tab (.ctxPragmas T post (.raise :: rest)) ⟨rs, none⟩ = ⟨rs, some "raised"⟩ := by
   have e : runOps tab (.raise :: rest) ⟨attachRoots T post rs, none⟩ = ⟨attachRoots T post rs, some "raised"⟩ := by
     simp [runOps, runOp, runOps_exc]
@@ -193,13 +219,31 @@ theorem C16_bracket_df (tab : DfTab) (ops : List Op) (rs : List Item)
   rw [e1] at hb
   simp [runOp, e2, e1, hb, dfDet_dfAtt_list tab rs hs hf]
 
-/-- `pragma_regions_attached`, both exits, when the enter part does not raise: exit undoes enter on every root outside
-the class -/
+theorem regDetach_regAttach_root (kw : Option String) (r : Item) (hb : regRootBad kw r = false)
+    (hf : regionFreeList r.body = true) : Item.mapBody unregList (regAttachRoot kw r) = r := by
+  have h := C16_regions_roundtrip (rootFuel kw r) (rootPairs kw r) r.body hb hf
+  cases r with
+  | pragma p => simp [regAttachRoot, Item.mapBody]
+  | node id k hp df pre po body => simpa [regAttachRoot, Item.mapBody, Item.body] using h
+  | region df s e body => simpa [regAttachRoot, Item.mapBody, Item.body] using h
+
+theorem regDetach_regAttach_roots (kw : Option String) (rs : List Item)
+    (h : ∀ r ∈ rs, regRootBad kw r = false ∧ regionFreeList r.body = true) :
+    regDetachRoots (regAttachRoots kw rs) = rs := by
+  induction rs with
+  | nil => simp [regAttachRoots, regDetachRoots]
+  | cons r rs ih =>
+    have h1 := regDetach_regAttach_root kw r (h r (by simp)).1 (h r (by simp)).2
+    have h2 := ih (fun r hr => h r (by simp [hr]))
+    simp only [regAttachRoots, regDetachRoots, List.map_cons, List.map_map] at h2 ⊢
+    simp [h1, h2]
+
+/-- `pragma_regions_attached`, both exits (the enter part cannot raise any more since the `fix:` commit for
+`region-match-indexerror`): exit undoes enter on every region-free root outside the class `region-index-by-value` -/
 theorem C16_bracket_regions (tab : DfTab) (kw : Option String) (ops : List Op) (rs : List Item)
-    (he : (regAttachRoots kw rs).2 = false)
-    (hu : regDetachRoots (regAttachRoots kw rs).1 = rs)
-    (hb : (runOps tab ops ⟨(regAttachRoots kw rs).1, none⟩).roots = (regAttachRoots kw rs).1) :
-    runOp tab (.ctxRegions kw ops) ⟨rs, none⟩ = ⟨rs, (runOps tab ops ⟨(regAttachRoots kw rs).1, none⟩).exc⟩ := by
-  simp [runOp, he, hb, hu]
+    (h : ∀ r ∈ rs, regRootBad kw r = false ∧ regionFreeList r.body = true)
+    (hb : (runOps tab ops ⟨regAttachRoots kw rs, none⟩).roots = regAttachRoots kw rs) :
+    runOp tab (.ctxRegions kw ops) ⟨rs, none⟩ = ⟨rs, (runOps tab ops ⟨regAttachRoots kw rs, none⟩).exc⟩ := by
+  simp [runOp, hb, regDetach_regAttach_roots kw rs h]
 
 end LokiModel.C16
